@@ -1,8 +1,8 @@
-\* leg A (quick): 2 concurrent calls on tls+pipeline (shared lazy dial, join, retry), no cancel, no late call; invariants
-SPECIFICATION Spec
+\* leg A (thorough): 2 calls, 2 dials (shared lazy dial, retry on another connection), tcp+pipeline and tls; invariants + Terminates (liveness)
+SPECIFICATION FairSpec
 CONSTANTS
-  Kinds = {"tls+pipeline"}
-  Listens = {"accept"}
+  Kinds = {"tcp+pipeline", "tls"}
+  Listens = {"accept", "hang"}
   InitCalls = {1, 2}
   LateCall = 0
   MaxD = 2
@@ -11,5 +11,6 @@ CONSTANTS
   Eager = FALSE
   Deviation = "none"
 INVARIANTS TypeOK DialEndsOnTimeout ExchangeEndsOnDialTimeout CloseCancelsDial PendingCallsEndOnClose LaterCallsFailImmediately ResultSound
+PROPERTIES Terminates
 VIEW ViewNoHist
 CHECK_DEADLOCK FALSE
